@@ -9,7 +9,7 @@ TO DO:
 """
 
 from plasTeX import Command, Environment
-from plasTeX.Base.LaTeX.Crossref import ref, pageref
+from plasTeX.Base.LaTeX import Crossref
 import urllib.parse
 
 def addBaseURL(self, urlarg):
@@ -21,8 +21,15 @@ def addBaseURL(self, urlarg):
 
 # Basic macros
 
-ref.args = '* %s' % ref.args
-pageref.args = '* %s' % pageref.args
+# hyperref adds a starred form to \ref and \pageref.  Subclass the
+# base macros instead of changing them: the base classes are shared by
+# all documents, also by those that do not load hyperref.
+
+class ref(Crossref.ref):
+    args = '* label:idref'
+
+class pageref(Crossref.pageref):
+    args = '* label:idref'
 
 class href(Command):
     args = 'url:url self'
